@@ -203,6 +203,10 @@ def table_configs(tier):
     for msl in (1, 2, 3, 4):
         for n in range(max(2 * msl, 6), 9 + 1):
             out.append((n, msl, 1, 1, "min", (0, 1, 2), 2))
+    # wide dynamic range: a slack of 4e6 next to slacks of 1 (no comparison may use a tolerance relative to the totals)
+    for msl in (1, 2):
+        for n in range(6, (8 if tier == "quick" else 10) + 1):
+            out.append((n, msl, 1, 1, "min", (0, 1, 4000000), 2))
     if tier == "thorough":
         for msl, top in tops.items():
             n = top + 1
